@@ -333,6 +333,10 @@ class Cluster:
                 job.blocked_by = updated_blocking_jobs_by_name.get(job.name, set())
             elif job.state == JobState.DONE:
                 self._config.completed_jobs += 1
+        # Jobs that were never submitted and are not resubmitted now must not be counted.
+        self._config.submitted_jobs = len(
+            [x for x in self.iter_jobs() if x.state != JobState.NOT_SUBMITTED]
+        )
 
         self._serialize("prepare_for_resubmission")
         self._serialize_jobs("prepare_for_resubmission")
